@@ -608,7 +608,7 @@ def _check_ops(case):
 
 
 def _ops_cases(tier, rng):
-    n = 4 if tier == 'quick' else 5
+    n = 4 if tier == 'quick' else 6
     R = _rects(n)
     cases = []
     pairs = list(_it.product(R, R))
@@ -617,7 +617,7 @@ def _ops_cases(tier, rng):
     for x, y in pairs:
         for kind in ('and', 'add', 'or', 'sub'):
             cases.append((kind, (x,), (y,)))
-    k = 1500 if tier == 'quick' else 30000
+    k = 1500 if tier == 'quick' else 150000
     for _ in range(k):
         A = tuple(rng.choice(R) for _ in range(rng.randrange(1, 4)))
         B = tuple(rng.choice(R) for _ in range(rng.randrange(1, 4)))
@@ -628,7 +628,7 @@ def _ops_cases(tier, rng):
 def _formula_cases(tier, rng):
     R = _rects(3)
     out = []
-    for _ in range(150 if tier == 'quick' else 3000):
+    for _ in range(150 if tier == 'quick' else 15000):
         out.append(('formula', rng.choice(R), rng.choice(R), rng.choice([' ', ':', ','])))
     return out
 
@@ -689,9 +689,9 @@ def _nested_cases(tier, rng):
     out = []
     singles = [x for x in R if x[:2] == x[2:]]
     # the family (P Q):S — the range operator applied to an intersection
-    for _ in range(1500 if tier == 'quick' else 20000):
+    for _ in range(1500 if tier == 'quick' else 100000):
         out.append(('add', ('and', ('leaf', rng.choice(R)), ('leaf', rng.choice(R))), ('leaf', rng.choice(singles))))
-    for _ in range(2500 if tier == 'quick' else 60000):
+    for _ in range(2500 if tier == 'quick' else 300000):
         t = _nested_tree(rng, R, 2 if rng.random() < 0.7 else 3)
         if t[0] != 'leaf':
             out.append(t)
@@ -827,15 +827,15 @@ def _check_nested(t):
 
 BOUNDED = [
     Stage('B1:reference-operators-on-a-small-grid', 'C06', _ops_cases, _check_ops,
-          'intersection, range, union and difference for every 3rd (quick) / every (thorough) ordered pair of rectangles of a 4x4 / 5x5 grid '
-          '(100 / 225 rectangles), plus random multi-area operands (1..3 areas each; also simplify): covered cells against finite cell sets, '
+          'intersection, range, union and difference for every 3rd (quick) / every (thorough) ordered pair of rectangles of a 4x4 / 6x6 grid '
+          '(100 / 441 rectangles), plus random multi-area operands (1..3 areas each; also simplify): covered cells against finite cell sets, '
           'values position by position / once per covering area, #NULL! for an empty intersection, read-back of the area names',
           max_report=20),
     Stage('B1:reference-operators-in-formulas', 'C06', _formula_cases, _check_formula,
-          '=SUM(a op b) for random rectangle pairs of a 3x3 grid and the three reference operators through Parser / compile (150 quick / 3000 thorough)',
+          '=SUM(a op b) for random rectangle pairs of a 3x3 grid and the three reference operators through Parser / compile (150 quick / 15000 thorough)',
           max_report=20),
     Stage('B1:nested-reference-expressions', 'C06', _nested_cases, _check_nested,
-          'operators applied to the results of operators: (P Q):S for random rectangles P, Q and cells S of a 4x4 grid (1500 quick / 20000 '
-          'thorough) and random expression trees of depth 2-3 over & : , - (2500 / 60000): areas, covered cells and the values seen '
+          'operators applied to the results of operators: (P Q):S for random rectangles P, Q and cells S of a 4x4 grid (1500 quick / 100000 '
+          'thorough) and random expression trees of depth 2-3 over & : , - (2500 / 300000): areas, covered cells and the values seen '
           'position by position against finite cell maps', max_report=20, classify=_classify_nested),
 ]
